@@ -79,12 +79,16 @@ MaskOp(op, m1, m2) == CASE op = "and" -> MAnd(m1, m2) [] op = "or" -> MOr(m1, m2
    Where some kappa < 1/16 the coordinates cannot decide and the XYZ image (the code's own direct f64 conversion of both
    results, logged by the harness) decides instead.
 
-   Tolerances, calibrated on the pinned tree (seeds 1-3, 440 k lanes; source lab / lch in f32 lanes excluded, see below):
-     wide lanes vs scalar  f32: largest deviation 1.33e-6 = 2^-19.5 of the range (oklch -> hsl: `wide`'s sin_cos + the Oklab
-                                matrices' cancellation), 2^-16 leaves 11x;  XYZ image 2.07e-6 of the magnitude, 2^-15 leaves 14x
-                           f64: 5.7e-15 = 2^-47.3 (lch -> hsl), XYZ image 4.0e-15; 2^-40 leaves > 150x
-     numbers (distances, contrast, numeric traits)  f32 8.2e-7 (ciede2000), f64 1.6e-14 (powf): same bits.
-   The principled bound is a few ulp of the lane type times the conditioning of the route (<= 2^-21 / 2^-50 here); the
+   Tolerances, calibrated on the pinned tree (seeds 1-3; 440 k lanes of the TLC groupings and random in-gamut colours, a thorough
+   run of 185 k lanes, 106 k operator lanes).  Excluded from the calibration: f32 lanes whose route crosses Lab -> Xyz - there
+   `Recip for f32x4 / f32x8` is the 12-bit hardware estimate and the lane is off by up to 5e-4 (a finding, not a tolerance).
+     wide lanes vs scalar  f32: largest deviation 1.33e-6 = 2^-19.5 of the range (oklch -> hsl: `wide`'s sin_cos and the
+                                cancellation in the Oklab matrices); 2^-16 leaves 11x.  XYZ image 2.07e-6 of the magnitude
+                                (oklch -> hwb); 2^-15 leaves 14x
+                           f64: 5.7e-15 = 2^-47.3 (lch -> hsl), XYZ image 6.0e-15 (oklch -> hwb); 2^-40 leaves > 150x
+     numbers (colour differences, contrast, numeric traits)  f32 8.2e-7 (ciede2000), f64 1.6e-14 (powf): the same bits.
+     colour-valued operators (mix, lighten, saturate, shift_hue, clamp, arithmetic, blend, compose) were bit-identical.
+   The principled bound is a few ulp of the lane type times the conditioning of the route (about 2^-21 / 2^-50 here); the
    tolerances are never tighter than that. *)
 
 LaneBits(t) == IF t = "f32" THEN 16 ELSE 40
@@ -118,11 +122,18 @@ KD(node, i) == IF i > NComp(node) THEN 1 ELSE KDen(node, i)
 (* scale of component i: its documented range (1 for free components and for an attached alpha) or the magnitude *)
 CompScale(node, i, a, b) == FxMax(IF i > NComp(node) THEN FxOne ELSE RangeOf(node, i), FxMax(FxAbs(a), FxAbs(b)))
 
+(* HueDist of ColourEq for the usual case |a - b| < 1080 without the long division (same value) *)
+HueDistFast(a, b) == LET d == FxAbs(FxSub(a, b))
+                     IN IF FxLt(d, Fx360) THEN FxMin(d, FxSub(Fx360, d))
+                        ELSE IF FxLt(d, FxInt(720)) THEN LET r == FxSub(d, Fx360) IN FxMin(r, FxSub(Fx360, r))
+                        ELSE IF FxLt(d, FxInt(1080)) THEN LET r == FxSub(d, FxInt(720)) IN FxMin(r, FxSub(Fx360, r))
+                        ELSE HueDist(a, b)
+
 OwnScaledNear(node, bits, v1, v2) ==
   \A i \in DOMAIN v1 :
     LET a == FxOf(v1[i])  b == FxOf(v2[i])
         k == FxMin(KNum(node, v1, i), KNum(node, v2, i))
-        d == IF i = HueIdx(node) /\ i <= NComp(node) THEN HueDist(a, b) ELSE FxAbs(FxSub(a, b))
+        d == IF i = HueIdx(node) /\ i <= NComp(node) THEN HueDistFast(a, b) ELSE FxAbs(FxSub(a, b))
         scale == IF i = HueIdx(node) /\ i <= NComp(node) THEN Fx360 ELSE CompScale(node, i, a, b)
     IN FxLe(FxMul(d, k), FxMulInt(FxShr(scale, bits), KD(node, i)))
 
@@ -188,6 +199,6 @@ PrecBits(from, to) == PrecTable[NodeIx(from)][NodeIx(to)]
 PrecAgree(from, to, v32, v64, h32, h64) ==
   /\ Len(v32) = Len(v64)
   /\ IF AllFin(v32) /\ AllFin(v64)
-     THEN OwnScaledNear(to, PrecBits(from, to), v32, v64) \/ HubAgree(h32, h64, PrecBits(from, to))
+     THEN LET bits == PrecBits(from, to) IN OwnScaledNear(to, bits, v32, v64) \/ HubAgree(h32, h64, bits)
      ELSE SameSpecials(v32, v64)
 =============================================================================
